@@ -101,6 +101,15 @@ Proof.
     vm_compute; reflexivity.
 Qed.
 
+(** A full-table replay sends at most one group per foreign (origin,
+    sequence): no replayed advertisement is dropped by the receiver's seen
+    cache because of another one of the same replay. *)
+Theorem C14_replay_one_group_per_advertisement : forall self cands k c,
+  In k (replay_keys self cands) -> In c (replay_keys self cands) ->
+  fst (fst k) <> self -> same_adv k c = true -> k = c.
+Proof. exact replay_keys_one_per_advertisement. Qed.
+Print Assumptions C14_replay_one_group_per_advertisement.
+
 Section SourceFacts.
 Import String.
 Local Open Scope string_scope.
@@ -110,7 +119,11 @@ Local Open Scope string_scope.
     routes (the single IncrementSequence call of SendFullTable); seen-by = path
     and a peer on the path is skipped; AddRoute of all four tables accepts
     "newer sequence, or same sequence and better metric"; announcements take a
-    fresh sequence (counter + 1) under the agent's own id. *)
+    fresh sequence (counter + 1) under the agent's own id, one per
+    splitRoutes group (at most 255 routes each; the model assumes route sets
+    that fit one advertisement); of the foreign replay groups with one
+    (origin, sequence) only the preferred one (most routes, shorter path,
+    smaller path) is sent, chosen before the peer-on-path test. *)
 Theorem C14_source_facts :
   gen_replay_key_fields = ["origin"; "seq"; "path"] /\
   gen_replay_key_own_group_else_origin_seq_path = true /\
@@ -120,7 +133,10 @@ Theorem C14_source_facts :
   gen_replay_adv_seenby = "path" /\ gen_replay_adv_path = "path" /\
   gen_replay_skips_peer_on_path = true /\
   gen_addroute_newer_or_better_tables = 4%nat /\
-  gen_announce_fresh_sequence_own_origin = true /\ gen_increment_sequence_is_plus_one = true.
+  gen_announce_fresh_sequence_own_origin = true /\ gen_increment_sequence_is_plus_one = true /\
+  gen_replay_sequence_chosen_per_split_group = true /\
+  gen_replay_keeps_best_group_per_origin_sequence = true /\
+  gen_max_routes_per_advertisement = 255.
 Proof. repeat split; reflexivity. Qed.
 End SourceFacts.
 Print Assumptions C14_source_facts.
